@@ -62,6 +62,9 @@ def mk_cfg(rng, crc, large, idw, seqw, mode=0, segctrl=0):
             "src": rand_uint(rng, 8 * idw), "seq": rand_uint(rng, 8 * seqw), "dst": rand_uint(rng, 8 * idw)}
 
 
+_LAST_IDS = None
+
+
 def rand_cfg(rng, segctrl=False, **fixed):
     c = mk_cfg(rng, rng.getrandbits(1), rng.getrandbits(1), rng.choice(WIDTHS), rng.choice(WIDTHS), rng.getrandbits(1),
                rng.getrandbits(1) if segctrl else 0)
@@ -70,11 +73,20 @@ def rand_cfg(rng, segctrl=False, **fixed):
         c["dst"] = c["src"]
         if rng.random() < 0.5:
             c["seq"] = c["src"] & ((1 << 8 * c["seqw"]) - 1)
+    global _LAST_IDS
+    if _LAST_IDS is not None and rng.random() < 0.08:
+        # numeric twins: the ids and the sequence number of the configuration generated just before, carried in other widths
+        # (anything keyed on the numbers alone - a cache, a memo, an equality shortcut - confuses the two)
+        src, dst, seq, idw0, seqw0 = _LAST_IDS
+        idws = [w for w in WIDTHS if max(src, dst) < 1 << 8 * w and w != idw0] or [w for w in WIDTHS if max(src, dst) < 1 << 8 * w]
+        seqws = [w for w in WIDTHS if seq < 1 << 8 * w and w != seqw0] or [w for w in WIDTHS if seq < 1 << 8 * w]
+        c.update(src=src, dst=dst, seq=seq, idw=rng.choice(idws), seqw=rng.choice(seqws))
     if fixed:
         c.update(fixed)
         c["src"] &= (1 << 8 * c["idw"]) - 1
         c["dst"] &= (1 << 8 * c["idw"]) - 1
         c["seq"] &= (1 << 8 * c["seqw"]) - 1
+    _LAST_IDS = (c["src"], c["dst"], c["seq"], c["idw"], c["seqw"])
     return c
 
 
